@@ -143,6 +143,9 @@ def parse_spec(unit):
                 cur["unwind"] = int(parts[0])
                 cur["unwind_kind"] = parts[1] if len(parts) > 1 else "bounded"
                 cur["unwind_note"] = parts[2] if len(parts) > 2 else ""
+            elif w == "unwindset":
+                sub, n = rest.rsplit(None, 1)
+                cur.setdefault("unwindset", []).append((sub, int(n)))
             elif w == "timeout":
                 cur["timeout"] = int(rest)
             elif w == "tier":
@@ -215,6 +218,9 @@ def resolve(u, key):
     """key: full C++ signature, or a unique prefix of it up to '(' (stable under body edits)."""
     if key in u.by_key:
         return u.by_key[key]
+    cands = [f for k, f in u.by_key.items() if k.split("(")[0] == key]
+    if len(cands) == 1:
+        return cands[0]
     cands = [f for k, f in u.by_key.items() if k.split("(")[0] == key or k.startswith(key)]
     if len(cands) == 1:
         return cands[0]
@@ -371,6 +377,19 @@ def cbmc_job(u, sp, job, workdir, tier):
     cmd = [c for c in cmd if c not in job.get("noflags", [])] + ["--no-" + c[2:] for c in job.get("noflags", [])]
     if "unwind" in job:
         cmd += ["--unwind", str(job["unwind"])]
+    if job.get("unwindset"):
+        us = []
+        for sub, n in job["unwindset"]:
+            hit = False
+            for f in u.map["functions"]:
+                if f["loops"] > 0 and sub in f["key"]:
+                    hit = True
+                    for k in range(f["loops"]):
+                        us.append("%s.%d:%d" % (f["c"], k, n))
+            if not hit:
+                res["reason"] = "unwindset pattern %r matches no lowered loop (must-fire)" % sub
+                return res
+        cmd += ["--unwindset", ",".join(us)]
     solver = job.get("solver", "cadical")
     if solver in ("cvc5", "z3"):
         cmd += ["--" + solver]
